@@ -1,6 +1,7 @@
 """Writes the instruction files for a round of independent seeded-change authors (sub-agents).
 
-    python tools/make_seed_prompts.py <round-dir> theme   # round 4: one cross-cutting theme per author
+    python tools/make_seed_prompts.py <round-dir> theme     # round 4: one cross-cutting kind of maintenance work per author
+    python tools/make_seed_prompts.py <round-dir> surface   # round 5: one slice of the public API/CLI surface per author
 
 Each author gets: the given property texts (properties.jsonl), one-line summaries of what EARLIER AUTHORS tried (taken
 from their own notes, i.e. seeded/*/meta.json 'needs_to_manifest'), and a scratch worktree. Nothing about the checks.
@@ -29,6 +30,23 @@ THEMES = {
     "multi_call": "state that survives a call: module-level state, mutable default arguments, in-place mutation of the caller's arguments (frames, dicts, arrays, lists), objects or generators used twice, results that alias internal buffers",
 }
 
+SURFACES = {
+    "create_opts": "cooler.create_cooler / cooler.create.create / create_from_unordered and ALL their options: ordered, symmetric_upper, mode, columns, dtypes, metadata, assembly, boundscheck, triucheck, dupcheck, ensure_sorted, mergebuf, max_merge, temp_dir, delete_temp, h5opts, lock; input forms (frame, dict of arrays, iterable of chunks, dask frame, ArrayLoader and the other binners/loaders in cooler.create)",
+    "cooler_class": "the cooler.Cooler object: construction from path / URI / open h5py handle / group, open(), info, attrs, chromnames, chromsizes, binsize, storage_mode, shape, offset(), extent(), chroms()/bins()/pixels() selectors (column selection, slicing, fetch, as_dict, join, convert_enum), _load_dset/_load_attrs",
+    "matrix_opts": "cooler.Cooler.matrix(...) and cooler.api.matrix and ALL its options: field, balance (True / column name / False), sparse, as_pixels, join, ignore_index, divisive_weights, chunksize; indexing forms (int, slice, negative, two slices, fetch with one or two regions)",
+    "cli_cload": "the `cooler cload` sub-commands (pairs, tabix, pairix, hiclib) and ALL their options: -c1/-p1/-c2/-p2, --field, --zero-based, --comment-char, --no-symmetric-upper, --input-copy-status, --chunksize, --mergebuf, --max-merge, --temp-dir, --no-delete-temp, --storage-options, --append, --metadata, --assembly, -p/--nproc, -s/--max-split, --block-char",
+    "cli_load": "`cooler load` and ALL its options: -f coo/bg2, --field (numbers, dtypes), --count-as-float, --one-based, --comment-char, -N, --input-copy-status, --chunksize, --mergebuf, --temp-dir, --max-merge, --no-delete-temp, --storage-options, --append, --metadata, --assembly; BINS_PATH forms (chromsizes:binsize, BED file)",
+    "cli_dump_show_info": "`cooler dump` and ALL its options (-t chroms/bins/pixels, -c columns, -H header, --na-rep, --float-format, -r, -r2, -f fill-lower, -b balanced, --join, --annotate, --one-based-ids, --one-based-starts, -k chunksize, -o out), plus `cooler info` (-f field, -m metadata), `cooler attrs`, `cooler tree`",
+    "cli_reduce": "`cooler merge`, `cooler coarsen`, `cooler zoomify` and ALL their options (--field with agg/dtype, -c chunksize, -k factor, -n/-p nproc, -r resolutions grammar, --balance and --balance-args, --base-uri, -o out, --append) and the API functions behind them (merge_coolers, coarsen_cooler, zoomify_cooler with their agg / columns / dtypes / mode / mergebuf / nproc / chunksize / lock arguments)",
+    "balance_all": "cooler.balance_cooler and `cooler balance` with ALL options: cis_only, trans_only, ignore_diags, mad_max, min_nnz, min_count, blacklist (BED path on the CLI), rescale_marginals, x0, tol, max_iters, chunksize, map, use_lock, store, store_name; CLI: --name, --force, --check, --stdout, --convergence-policy, -p nproc, --ignore-dist",
+    "fileops_all": "cooler.fileops (cp, mv, ln with soft/hard, list_coolers, list_scool_cells, is_cooler, is_multires_file, is_scool_file, ls, tree/pprint_attr/pprint_data_tree, read_attr_tree) and the CLI commands cp, mv, ln, ls, tree, attrs; URIs with nested groups, root destinations, overwrite flags",
+    "scool_rename_annotate": "cooler.create_scool (bins dict/frame, cell_name_pixels_dict, columns, dtypes, metadata, mode, chunk iterables per cell), cooler.rename_chroms, cooler.annotate (replace flag, partial bin tables, selectors), cooler.create.append",
+    "util_bins": "cooler.util: binnify, digest/`cooler digest`, make_bintable/`cooler makebins` (-H header, --rel-ids), read_chromsizes (filter_chroms, name_patterns, natsort, all_names), get_binsize, get_chromsizes, check_bins, GenomeSegmentation, bedslice, asarray_or_dataset, mad, cmd_exists, partition, parse_cooler_uri, parse_region, parse_humanized, natsorted/argnatsort",
+    "parallel_lock": "cooler.parallel (split, MultiplexDataPipe: prepare/pipe/run/gather/reduce, partition, chunkgetter, lock usage) and every place a `map` or `lock` argument is accepted (balance_cooler, coarsen_cooler, zoomify_cooler, create with lock=) including multiprocess pools with map / imap / imap_unordered",
+}
+
+SURFACE_LINE = "a SLICE OF THE PUBLIC SURFACE rather than a file: {theme}.\nRead the documentation strings and the code behind these entry points, list their options and argument forms, and look for options, option COMBINATIONS and argument forms that the tests never exercise; a maintainer touching the code behind them could plausibly slip there."
+
 TMPL = '''You are helping to evaluate a verification effort for the open-source Python library open2c/cooler (HDF5-based sparse genomic contact matrices). Your job is to play the role of a developer who introduces a SUBTLE BUG.
 
 You have your own scratch git worktree of the repository at {wt} (a checkout of the current HEAD). Work ONLY inside that directory. Do NOT read, list or modify anything under /verif, and do NOT modify /repo itself. The library is pure Python; to run anything against your modified copy you MUST put its sources first on the path: `PYTHONPATH={wt}/src /venv/bin/python ...` (without this, Python imports the unmodified /repo/src). Verify with `PYTHONPATH={wt}/src /venv/bin/python -c "import cooler; print(cooler.__file__)"`.
@@ -37,11 +55,11 @@ The library is supposed to satisfy the following twenty properties:
 
 {plist}
 
-YOUR ASSIGNMENT is a KIND OF WORK rather than a file: {theme}.
-Read through src/cooler (library and cli/) looking for places where a maintainer doing that kind of work could plausibly slip. Produce TWO independent source changes, "A" and "B", in DIFFERENT functions (preferably different files), each of which:
+YOUR ASSIGNMENT is {assignment}
+Produce TWO independent source changes, "A" and "B", in DIFFERENT functions (preferably different files), each of which:
  1. breaks at least one of the twenty properties above (say which one in notes.md: first line must be `PROPERTY: Cxx`),
  2. still imports/compiles and still PASSES the existing test suite: `mkdir -p {wt}_tmp && cd {wt} && TMPDIR={wt}_tmp PYTHONPATH={wt}/src /venv/bin/python -m pytest -q -p no:cacheprovider --no-cov --deselect "tests/test_create.py::test_roundtrip"` (about 40 s; the private TMPDIR matters because a few tests write fixed file names under the temp directory and other agents run concurrently; test_roundtrip fails before any change and is to be ignored),
- 3. needs something SPECIFIC to manifest - an unusual but valid input, a particular chunk boundary / chunk size / ordering, a multi-step sequence of operations or a second call on the same object, a fault at a particular point, a particular option combination or entry point, or two cooperating code sites that each look fine alone - i.e. NOT something that any ordinary use would expose immediately. It must look like an honest commit of the assigned kind (with a plausible commit-message-style comment), not sabotage such as `if x == 12345`. Do not weaken or edit the tests. Keep each change small.
+ 3. needs something SPECIFIC to manifest - an unusual but valid input, a particular chunk boundary / chunk size / ordering, a multi-step sequence of operations or a second call on the same object, a fault at a particular point, a particular option combination or entry point, or two cooperating code sites that each look fine alone - i.e. NOT something that any ordinary use would expose immediately. It must look like an honest maintenance commit (with a plausible commit-message-style comment), not sabotage such as `if x == 12345`. Do not weaken or edit the tests. Keep each change small.
 
 The following ideas have ALREADY been used by earlier developers - do NOT repeat them or close variants (same function + same mechanism); find something else, preferably in code none of them touched:
 {prior}
@@ -66,13 +84,20 @@ def main():
         lines = [l.strip() for l in m["needs_to_manifest"].splitlines() if l.strip() and not l.startswith("#")]
         prior.append(f"- ({m['property']}) " + " ".join(lines)[:200])
     os.makedirs(os.path.join(root, "prompts"), exist_ok=True)
-    for k, theme in THEMES.items():
+    mode = sys.argv[2] if len(sys.argv) > 2 else "theme"
+    table = THEMES if mode == "theme" else SURFACES
+    for k, theme in table.items():
+        if mode == "theme":
+            assignment = ("a KIND OF WORK rather than a file: " + theme + ".\nRead through src/cooler (library and cli/) looking for "
+                          "places where a maintainer doing that kind of work could plausibly slip.")
+        else:
+            assignment = SURFACE_LINE.format(theme=theme)
         wt = os.path.join(root, k)
         if not os.path.exists(wt):
             subprocess.run(["git", "-C", "/repo", "worktree", "add", "-q", "--detach", wt, "HEAD"], check=True)
         with open(os.path.join(root, "prompts", k + ".txt"), "w") as f:
-            f.write(TMPL.format(wt=wt, plist=plist, theme=theme, prior="\n".join(prior)))
-    print(len(THEMES), "prompts in", os.path.join(root, "prompts"))
+            f.write(TMPL.format(wt=wt, plist=plist, assignment=assignment, prior="\n".join(prior)))
+    print(len(table), "prompts in", os.path.join(root, "prompts"))
 
 
 if __name__ == "__main__":
